@@ -11,8 +11,8 @@ R2  with the latch empty, `write` calls nothing that can touch a sink or the
 R3  completed stream: the loop of the shared decoding core tests the produced
     length against the size in effect with an ordering comparison as the first
     thing of every round, before any consuming read or append.
-R4  (thorough) type-level witness: `finish(self)` consumes the stream - a later
-    write does not compile.
+(A compile-fail witness "write after finish(self) is E0382" was built and removed: the property says nothing
+about calls after finish, so the witness demanded more than the property - see DESIGN.md section 10.)
 """
 import os
 import subprocess
@@ -305,22 +305,6 @@ def size_side_only(b, tm, c, h, x, blocks):
     return False
 
 
-def rule_witness(ctx):
-    r = report.RuleResult("C16.R4", "type-level witness: finish(self) consumes the stream (write after finish is E0382)")
-    wdir = os.path.join(os.path.dirname(os.path.dirname(os.path.abspath(__file__))), "witness")
-    if not os.path.isdir(wdir):
-        r.notes.append("witness crate not present")
-        return r
-    from rules.witness import run_witness
-    okk, detail = run_witness(ctx, ["stream_finish_consumes"])
-    r.sites = 1
-    if okk:
-        r.ok("compile-fail", detail)
-    else:
-        r.bad("witness|finish", "compile-fail witness did not behave as expected: %s" % detail, kind="unverifiable")
-    return r
-
-
 def run(ctx, t0):
     facts = ctx.facts()
     tname, field = latch_field(facts)
@@ -333,8 +317,6 @@ def run(ctx, t0):
         r1, r2 = rule_write(facts, tname, field)
         r2 = rule_finish_flush(facts, tname, field, r2)
         rules += [r1, r2, rule_completed(facts)]
-        if ctx.tier == "thorough":
-            rules.append(rule_witness(ctx))
     expl = ("Static typestate analysis of the Option latch of the streaming decoder over the MIR control-flow graph "
             "(take / refill / None-assignment as transfer functions; checked at every Err source), path checks on "
             "the None arms of write and finish, and the position/shape of the size test of the shared decoding loop. "
